@@ -47,6 +47,32 @@
 //! |                               |           | formatted report: only the text is available, so  |
 //! |                               |           | file, locus inside T and quoted line are checked  |
 //!
+//! | component-attr (value after `=` in a component call is a bare integer / float / bool /      |
+//! | identifier / operator / missing; inline and body form; T = that token), reserved-name       |
+//! | (T = the reserved word)       | Syntax    | Contains T                                        |
+//! | component-call-misc, component-def                                                          |
+//! |                               | Syntax    | Overlaps T (for a stray token in attribute        |
+//! |                               |           | position T = previous token + stray token: the    |
+//! |                               |           | engine names the last CONSUMED token there)       |
+//!
+//! Call sites: include tags and component calls also sit inside output captures (filter section,
+//! set block, body of a component call, and nestings of those) and inside component bodies; every
+//! enclosing include / component call must appear as a note naming the calling template and the
+//! line of the call, quoting that line of that template (`callsite.*` in the histogram).
+//!
+//! History: a quarter of the rendering faults are rendered on an instance that went through a
+//! second `add_raw_templates` call first — a batch that redefines the host / a calling template /
+//! the root / the entry with all offsets shifted and is rejected late (unknown filter, test,
+//! function, component, include target), the same rejected early (syntax error), or an accepted
+//! shifted replacement (then the expected source and the planted offsets are the new ones). The
+//! oracle always judges against the source CURRENTLY registered under the reported name
+//! (`history.*` in the histogram; the replay holds the ordered add calls with their outcomes).
+//!
+//! Syntax-site coverage: the message templates of every `syntax_error(…)` / `expect_token!` site
+//! are read at run time from `$VERIF_REPO` (default /repo) `tera/src/parsing/{parser,lexer}.rs`
+//! and matched against the messages the planted faults produced (`syntax-site.hit / .total`, the
+//! unreached ones are listed in the notes).
+//!
 //! A planted fault that yields no error at all, or an error of another kind, is counted
 //! (`no-report-error.*`) and not judged: the property speaks about syntax / rendering errors.
 //! A panic while registering / rendering / formatting is a violation.
@@ -80,7 +106,8 @@ enum PK {
     Slot(usize),
     /// an include tag / component call of unit `u`; `anchor` = offset of the call site in `text`
     Call(usize),
-    /// closing tag of a body component call of unit `u`
+    /// text tied to the call of unit `u`: closing tag of a body component call, opening / closing
+    /// tags of the captures wrapped around the call
     CallClose(usize),
 }
 
@@ -89,13 +116,16 @@ struct Piece {
     text: String,
     kind: PK,
     anchor: usize,
+    /// for a call: the output capture(s) it sits in ("" = none): filter section, set block,
+    /// component-call body and combinations
+    cap: &'static str,
 }
 
 fn text(s: impl Into<String>) -> Piece {
-    Piece { text: s.into(), kind: PK::Text, anchor: 0 }
+    Piece { text: s.into(), kind: PK::Text, anchor: 0, cap: "" }
 }
 fn fill(s: impl Into<String>) -> Piece {
-    Piece { text: s.into(), kind: PK::Filler, anchor: 0 }
+    Piece { text: s.into(), kind: PK::Filler, anchor: 0, cap: "" }
 }
 
 #[derive(Clone, Debug)]
@@ -148,12 +178,12 @@ impl TSet {
         self.tpls.iter().map(|t| (t.name.clone(), t.pieces.iter().map(|p| p.text.as_str()).collect::<String>())).collect()
     }
     /// (template index, byte offset of the call site) of unit `u`
-    fn call_site(&self, u: usize) -> Option<(usize, usize)> {
+    fn call_site(&self, u: usize) -> Option<(usize, usize, &'static str)> {
         for (ti, t) in self.tpls.iter().enumerate() {
             let mut off = 0;
             for p in &t.pieces {
                 if p.kind == PK::Call(u) {
-                    return Some((ti, off + p.anchor));
+                    return Some((ti, off + p.anchor, p.cap));
                 }
                 off += p.text.len();
             }
@@ -223,6 +253,8 @@ struct G<'r> {
     rng: &'r mut Rng,
     crlf: bool,
     slots: Vec<SlotInfo>,
+    /// a call was wrapped in the body of `wrapq`: the set needs the template defining it
+    need_wrap: bool,
 }
 
 impl G<'_> {
@@ -323,7 +355,7 @@ impl G<'_> {
                 out.push(fill(p));
             }
         }
-        out.push(Piece { text: String::new(), kind: PK::Slot(id), anchor: 0 });
+        out.push(Piece { text: String::new(), kind: PK::Slot(id), anchor: 0, cap: "" });
         if at_eof {
             return;
         }
@@ -386,13 +418,37 @@ fn region(g: &mut G, out: &mut Vec<Piece>, info: &SlotInfo, calls: &[CallSpec], 
             let p = g.prefix();
             out.push(fill(p));
         }
-        out.push(Piece { text: c.open.clone(), kind: PK::Call(c.unit), anchor: c.anchor });
+        // the call may sit inside output captures: the VM renders it into a capture buffer there
+        let (cap, open, close): (&'static str, &str, &str) = match g.rng.below(18) {
+            0 | 1 => ("filter", "{% filter upper %}", "{% endfilter %}"),
+            2 | 3 => ("set", "{% set capq %}", "{% endset %}{{ capq }}"),
+            4 | 5 => ("body", "{% <wrapq> %}", "{% </wrapq> %}"),
+            6 => ("filter+set", "{% filter trim %}é{% set capq %}", "{% endset %}{{ capq }}{% endfilter %}"),
+            7 => ("set+body", "{% set capq %}{% <wrapq> %}\t", "{% </wrapq> %}{% endset %}{{ capq }}"),
+            8 => ("body+filter", "{% <wrapq> %}{%- filter upper -%}", "{% endfilter %}{% </wrapq> %}"),
+            _ => ("", "", ""),
+        };
+        if cap.contains("body") {
+            g.need_wrap = true;
+        }
+        if !cap.is_empty() {
+            // tied to the call (kind CallClose) so that the shrinker removes it with the call
+            out.push(Piece { text: open.to_string(), kind: PK::CallClose(c.unit), anchor: 0, cap: "" });
+            if g.rng.chance(1, 3) {
+                let nl = g.nl();
+                out.push(fill(nl));
+            }
+        }
+        out.push(Piece { text: c.open.clone(), kind: PK::Call(c.unit), anchor: c.anchor, cap });
         if let Some(close) = &c.close {
             g.filler(out, 1);
             let mut bi = info.clone();
             bi.base_role = "component-call-body";
             g.slot(out, bi, false, false);
-            out.push(Piece { text: close.clone(), kind: PK::CallClose(c.unit), anchor: 0 });
+            out.push(Piece { text: close.clone(), kind: PK::CallClose(c.unit), anchor: 0, cap: "" });
+        }
+        if !cap.is_empty() {
+            out.push(Piece { text: close.to_string(), kind: PK::CallClose(c.unit), anchor: 0, cap: "" });
         }
         let nl = g.nl();
         out.push(fill(nl));
@@ -458,7 +514,8 @@ fn gen_set(rng: &mut Rng) -> TSet {
         Entry(u8, usize),
         Inc1,
         Inc2,
-        DefB,
+        /// body of the definition of component unit `u`
+        Def(usize),
     }
     let mut placed: Vec<(Host, CallSpec)> = Vec::new();
     let pick_entry = |rng: &mut Rng| {
@@ -466,8 +523,16 @@ fn gen_set(rng: &mut Rng) -> TSet {
         Host::Entry(h.0, h.1)
     };
     if let Some(u) = u_inc1 {
-        placed.push((pick_entry(rng), include_call(rng, u, inc1_name)));
-        units[u].caller = Some(0);
+        // at entry level, or inside the body of a component that is called from entry level
+        let comp_hosts: Vec<usize> = [u_b, u_l, u_a].iter().flatten().copied().collect();
+        if !comp_hosts.is_empty() && rng.chance(1, 4) {
+            let h = *rng.pick(&comp_hosts);
+            placed.push((Host::Def(h), include_call(rng, u, inc1_name)));
+            units[u].caller = Some(h);
+        } else {
+            placed.push((pick_entry(rng), include_call(rng, u, inc1_name)));
+            units[u].caller = Some(0);
+        }
     }
     if let Some(u) = u_inc2 {
         placed.push((Host::Inc1, include_call(rng, u, inc2_name)));
@@ -479,7 +544,7 @@ fn gen_set(rng: &mut Rng) -> TSet {
     }
     if let Some(u) = u_a {
         if u_b.is_some() && rng.chance(1, 2) {
-            placed.push((Host::DefB, comp_call(rng, u, "ui.badge", false)));
+            placed.push((Host::Def(u_b.unwrap()), comp_call(rng, u, "ui.badge", false)));
             units[u].caller = u_b;
         } else {
             placed.push((pick_entry(rng), comp_call(rng, u, "ui.badge", false)));
@@ -502,7 +567,7 @@ fn gen_set(rng: &mut Rng) -> TSet {
     let calls_of = |h: Host| -> Vec<CallSpec> { placed.iter().filter(|(x, _)| *x == h).map(|(_, c)| c.clone()).collect() };
 
     let mut tpls: Vec<TplB> = Vec::new();
-    let mut g = G { rng, crlf: false, slots: Vec::new() };
+    let mut g = G { rng, crlf: false, slots: Vec::new(), need_wrap: false };
 
     // ---- root
     let root_idx = 0usize;
@@ -526,7 +591,7 @@ fn gen_set(rng: &mut Rng) -> TSet {
         if let Some(_u) = u_l {
             out.push(text(format!("{{% component local_box({PARAMS}) %}}")));
             let ci = SlotInfo { unit: u_l.unwrap(), in_comp_def: true, base_role: "component", ..top.clone() };
-            region(&mut g, &mut out, &ci, &[], false, false);
+            region(&mut g, &mut out, &ci, &calls_of(Host::Def(u_l.unwrap())), false, false);
             out.push(text("{% endcomponent local_box %}"));
             let nl = g.nl();
             out.push(fill(nl));
@@ -600,7 +665,8 @@ fn gen_set(rng: &mut Rng) -> TSet {
         g.crlf = g.rng.chance(1, 5);
         let idx = tpls.len();
         let mut out = Vec::new();
-        let info = SlotInfo { tpl: idx, unit: u, live: true, child_tpl: false, in_block: false, in_comp_def: false, base_role: "include" };
+        let role = if units[u].caller.is_some_and(|c| units[c].kind == UnitKind::Component) { "include-in-component" } else { "include" };
+        let info = SlotInfo { tpl: idx, unit: u, live: true, child_tpl: false, in_block: false, in_comp_def: false, base_role: role };
         let bare = g.rng.chance(1, 4);
         let eof = g.rng.chance(1, 3);
         region(&mut g, &mut out, &info, &calls_of(Host::Inc1), bare, eof);
@@ -652,7 +718,7 @@ fn gen_set(rng: &mut Rng) -> TSet {
             if body {
                 out.push(text("<card>{{ body }}</card>"));
             }
-            let calls = if body { calls_of(Host::DefB) } else { vec![] };
+            let calls = calls_of(Host::Def(u));
             region(&mut g, &mut out, &ci, &calls, false, false);
             out.push(text(if g.rng.chance(1, 2) { format!("{{% endcomponent {name} %}}") } else { "{% endcomponent %}".to_string() }));
             let nl = g.nl();
@@ -668,6 +734,9 @@ fn gen_set(rng: &mut Rng) -> TSet {
             g.slot(&mut out, dead.clone(), false, true);
         }
         tpls.push(TplB { name: comps_name.to_string(), pieces: out });
+    }
+    if g.need_wrap {
+        tpls.push(TplB { name: "wrap.html".to_string(), pieces: vec![text("{% component wrapq() %}<w>{{ body }}</w>{% endcomponent wrapq %}")] });
     }
     let slots = g.slots;
     TSet { tpls, entry, slots, units, has_comp_q: has_q }
@@ -859,6 +928,7 @@ fn gen_fault(rng: &mut Rng, set: &TSet, slot: usize, after: &str, forced: Option
         candidates.push(Fault { class, text: txt, tok: tr, cover, expect: Expect::Render });
     } else {
         let deep = format!("{{{{ {}1{} }}}}", "(".repeat(41), ")".repeat(41));
+        let nest = format!("{}x{}", "{% filter upper %}".repeat(41), "{% endfilter %}".repeat(41));
         let mut v: Vec<(&'static str, String, String, Cover, Expect)> = vec![
             ("unexpected-char", "{{ a ^ b }}".into(), "^".into(), Contains, Expect::Syntax),
             ("unexpected-char", "{{ a ? }}".into(), "?".into(), Contains, Expect::Syntax),
@@ -910,7 +980,74 @@ fn gen_fault(rng: &mut Rng, set: &TSet, slot: usize, after: &str, forced: Option
             ("parser-misc", "{{ (1 }}".into(), "(1 }}".into(), Overlaps, Expect::Syntax),
             ("parser-misc", "{{ 1) }}".into(), "1)".into(), Overlaps, Expect::Syntax),
             ("parser-misc", "{{ \"é😀\" ~ a not }}".into(), "not".into(), Overlaps, Expect::Syntax),
-            ("parser-misc", "{{ <ui.badge x=1 /> }}".into(), "x=1".into(), Overlaps, Expect::Syntax),
+            // component-call attributes: the value after `=` must be a string or a `{expr}` group
+            ("component-attr", "{{ <ui.badge x=42 /> }}".into(), "42".into(), Contains, Expect::Syntax),
+            ("component-attr", "{{ <ui.badge s=\"é😀\" x=4.5 /> }}".into(), "4.5".into(), Contains, Expect::Syntax),
+            ("component-attr", "{{ <ui.badge x=true /> }}".into(), "true".into(), Contains, Expect::Syntax),
+            ("component-attr", "{{- <ui.badge x=nn /> -}}".into(), "nn".into(), Contains, Expect::Syntax),
+            ("component-attr", "{% <ui.card s=name> %}x{% </ui.card> %}".into(), "name".into(), Contains, Expect::Syntax),
+            ("component-attr", "{% <ui.card s=\"é\" x=[1]> %}é{% </ui.card> %}".into(), "[".into(), Contains, Expect::Syntax),
+            ("component-attr", "{{ <ui.badge x=-1 /> }}".into(), "-".into(), Contains, Expect::Syntax),
+            ("component-attr", "{{ <ui.badge x= /> }}".into(), "/".into(), Contains, Expect::Syntax),
+            ("component-attr", "{% set zq = <ui.badge x=\n 7 /> %}".into(), "7".into(), Contains, Expect::Syntax),
+            // a stray token in attribute position: the engine names the token BEFORE it (`badge`),
+            // the last one consumed, so only an overlap with "previous token + stray token" is asked
+            ("component-call-misc", "{{ <ui.badge 42 /> }}".into(), "badge 42".into(), Overlaps, Expect::Syntax),
+            ("component-call-misc", "{{ <ui.badge =1 /> }}".into(), "badge =".into(), Overlaps, Expect::Syntax),
+            ("component-call-misc", "{{ <ui.badge s=\"a\" ) /> }}".into(), "\"a\" )".into(), Overlaps, Expect::Syntax),
+            ("component-call-misc", "{{ <ui.badge / x> }}".into(), "/ x".into(), Overlaps, Expect::Syntax),
+            ("component-call-misc", "{{ <ui.badge x={n s=\"a\" /> }}".into(), "{n s".into(), Overlaps, Expect::Syntax),
+            ("component-call-misc", "{% < 1 > %}x".into(), "< 1 >".into(), Overlaps, Expect::Syntax),
+            ("component-def", "{% component cq15() {\"css\": a} %}{% endcomponent %}".into(), "{% component cq15() {\"css\": a} %}{% endcomponent %}".into(), Overlaps, Expect::Syntax),
+            ("component-call-misc", "{{ <ui.card> }}".into(), "<ui.card> }}".into(), Overlaps, Expect::Syntax),
+            ("component-call-misc", "{% <ui.card> %}x{% </ui.badge> %}".into(), "{% <ui.card> %}x{% </ui.badge> %}".into(), Overlaps, Expect::Syntax),
+            ("component-call-misc", "{{ < 1 }}".into(), "< 1".into(), Overlaps, Expect::Syntax),
+            ("component-call-misc", "{{ <ui.badge {..n} /> }}".into(), "{..n}".into(), Overlaps, Expect::Syntax),
+            ("component-call-misc", "{{ <ui.badge x={n /> }}".into(), "{n />".into(), Overlaps, Expect::Syntax),
+            // component definitions (anywhere but at top level they are refused as a whole)
+            ("component-def", "{% component cq1(title body) %}{% endcomponent %}".into(), "{% component cq1(title body) %}{% endcomponent %}".into(), Overlaps, Expect::Syntax),
+            ("component-def", "{% component cq2(body) %}{% endcomponent %}".into(), "{% component cq2(body) %}{% endcomponent %}".into(), Overlaps, Expect::Syntax),
+            ("component-def", "{% component cq3(name, ...name) %}b{% endcomponent %}".into(), "{% component cq3(name, ...name) %}b{% endcomponent %}".into(), Overlaps, Expect::Syntax),
+            ("component-def", "{% component cq4(...r, name) %}b{% endcomponent %}".into(), "{% component cq4(...r, name) %}b{% endcomponent %}".into(), Overlaps, Expect::Syntax),
+            ("component-def", "{% component cq5(array=[a]) %}{% endcomponent %}".into(), "{% component cq5(array=[a]) %}{% endcomponent %}".into(), Overlaps, Expect::Syntax),
+            ("component-def", "{% component cq6(array={\"hello\": a}) %}{% endcomponent %}".into(), "{% component cq6(array={\"hello\": a}) %}{% endcomponent %}".into(), Overlaps, Expect::Syntax),
+            ("component-def", "{% component cq7(a=b) %}{% endcomponent %}".into(), "{% component cq7(a=b) %}{% endcomponent %}".into(), Overlaps, Expect::Syntax),
+            ("component-def", "{% component cq8(a: nosuchtype) %}{% endcomponent %}".into(), "{% component cq8(a: nosuchtype) %}{% endcomponent %}".into(), Overlaps, Expect::Syntax),
+            ("component-def", "{% component cq8(a: 5) %}{% endcomponent %}".into(), "{% component cq8(a: 5) %}{% endcomponent %}".into(), Overlaps, Expect::Syntax),
+            ("component-def", "{% component cq4(a, ...r, name) %}b{% endcomponent %}".into(), "{% component cq4(a, ...r, name) %}b{% endcomponent %}".into(), Overlaps, Expect::Syntax),
+            ("component-def", "{% component cq9(name: string, name: integer) %}{% endcomponent %}".into(), "{% component cq9(name: string, name: integer) %}{% endcomponent %}".into(), Overlaps, Expect::Syntax),
+            ("component-def", "{% component cq10() %}First{% endcomponent %}\n{% component cq10() %}Second{% endcomponent %}".into(), "{% component cq10() %}First{% endcomponent %}\n{% component cq10() %}Second{% endcomponent %}".into(), Overlaps, Expect::Syntax),
+            ("component-def", "{% component cq11() %}{% endcomponent hi %}".into(), "{% component cq11() %}{% endcomponent hi %}".into(), Overlaps, Expect::Syntax),
+            ("component-def", "{% component cq12() %}{% component cq13() %}{% endcomponent %}{% endcomponent %}".into(), "{% component cq12() %}{% component cq13() %}{% endcomponent %}{% endcomponent %}".into(), Overlaps, Expect::Syntax),
+            ("component-def", "{% component cq14 %}{% endcomponent %}".into(), "{% component cq14 %}{% endcomponent %}".into(), Overlaps, Expect::Syntax),
+            // reserved names
+            ("reserved-name", "{% set break = false %}".into(), "break".into(), Contains, Expect::Syntax),
+            ("reserved-name", "{% for k, break in m %}{% endfor %}".into(), "break".into(), Contains, Expect::Syntax),
+            ("reserved-name", "{% for loop in arr %}{% endfor %}".into(), "loop".into(), Contains, Expect::Syntax),
+            ("reserved-name", "{{ [1 for none in arr] }}".into(), "none".into(), Contains, Expect::Syntax),
+            ("reserved-name", "{{ [1 for k, self in m] }}".into(), "self".into(), Contains, Expect::Syntax),
+            // more parser sites
+            ("parser-misc", "{{ [[[1], [2]], [true]] }}".into(), "[[[1], [2]], [true]]".into(), Overlaps, Expect::Syntax),
+            ("parser-misc", "{{ range(end=5, end=3) }}".into(), "range(end=5, end=3)".into(), Overlaps, Expect::Syntax),
+            ("parser-misc", "{{ range(end=1 start=2) }}".into(), "range(end=1 start=2)".into(), Overlaps, Expect::Syntax),
+            ("parser-misc", "{{ [x for x in arr for y in arr] }}".into(), "[x for x in arr for y in arr]".into(), Overlaps, Expect::Syntax),
+            ("parser-misc", "{{ [x for x arr] }}".into(), "[x for x arr]".into(), Overlaps, Expect::Syntax),
+            ("parser-misc", "{{ a[a[a[a[a[0]]]]] }}".into(), "a[a[a[a[a[0]]]]]".into(), Overlaps, Expect::Syntax),
+            ("parser-misc", "{% for q in arr %}{% set y %}{% continue %}{% endset %}{% endfor %}".into(), "{% for q in arr %}{% set y %}{% continue %}{% endset %}{% endfor %}".into(), Overlaps, Expect::Syntax),
+            ("parser-misc", "{% for q in [] %}a{% else %}{% break %}{% endfor %}".into(), "{% for q in [] %}a{% else %}{% break %}{% endfor %}".into(), Overlaps, Expect::Syntax),
+            ("parser-misc", "{% set zq zz %}".into(), "set zq zz %}".into(), Overlaps, Expect::Syntax),
+            ("parser-misc", "{% if true %}{% extends \"a\" %}{% endif %}".into(), "{% if true %}{% extends \"a\" %}{% endif %}".into(), Overlaps, Expect::Syntax),
+            ("parser-misc", "{{ n not [0] }}".into(), "n not [0]".into(), Overlaps, Expect::Syntax),
+            ("parser-misc", "{{ {\"k\": ...a} }}".into(), "{\"k\": ...a}".into(), Overlaps, Expect::Syntax),
+            ("parser-misc", "{{ a is upper(b=,) }}".into(), "upper(b=,)".into(), Overlaps, Expect::Syntax),
+            ("parser-misc", "{{ a[1 }}".into(), "a[1 }}".into(), Overlaps, Expect::Syntax),
+            ("parser-misc", "{{ {\"a\" 1} }}".into(), "{\"a\" 1}".into(), Overlaps, Expect::Syntax),
+            ("parser-misc", "{{ {\"a\": 1 }}".into(), "{\"a\": 1 }}".into(), Overlaps, Expect::Syntax),
+            ("parser-misc", "{% include \"a\" \"b\" %}".into(), "\"a\" \"b\"".into(), Overlaps, Expect::Syntax),
+            ("parser-misc", "{% for k v in m %}{% endfor %}".into(), "for k v in m".into(), Overlaps, Expect::Syntax),
+            ("parser-misc", "{% block zq1 %}{% endblock zq2 %}".into(), "{% block zq1 %}{% endblock zq2 %}".into(), Overlaps, Expect::Syntax),
+            ("parser-misc", "{% filter %}x{% endfilter %}".into(), "{% filter %}".into(), Overlaps, Expect::Syntax),
+            ("too-deep", nest.clone(), nest.clone(), Overlaps, Expect::Syntax),
             ("parser-misc", "{% block %}".into(), "block %}".into(), Overlaps, Expect::Syntax),
             ("parser-misc", "{{ \"ho\" ~ - \"hey\" }}".into(), "- \"hey\"".into(), Overlaps, Expect::Syntax),
             ("parser-misc", "{{ s ~ (-n) }}".into(), "(-n)".into(), Overlaps, Expect::Syntax),
@@ -947,7 +1084,7 @@ fn all_classes() -> Vec<&'static str> {
         "in-non-container", "spread-non-array", "component-bad-call", "not-iterable", "kv-on-array", "super-misuse", "unexpected-char",
         "unterminated-string", "bad-escape", "unterminated-var", "unterminated-tag", "missing-end-tag", "unknown-tag", "elif-after-else",
         "extends-misplaced", "duplicate-block", "int-literal-too-large", "empty-expr", "missing-operand", "stray-end-tag", "too-deep",
-        "unknown-name", "parser-misc", "unterminated-comment", "unterminated-raw",
+        "unknown-name", "parser-misc", "unterminated-comment", "unterminated-raw", "component-attr", "component-call-misc", "component-def", "reserved-name",
     ]
 }
 
@@ -972,10 +1109,80 @@ struct Case {
     tok: Range<usize>,
     /// enclosing call sites, innermost first: (calling template, byte offset of the call site)
     chain: Vec<(String, usize)>,
+    /// per call site: the output captures it sits in ("" = none)
+    chain_caps: Vec<String>,
     role: String,
     /// the fault sits directly in the body of this component: `Tera::render_component` is a second
     /// way to reach it (no enclosing call site then)
     direct_component: Option<String>,
+    /// history on ONE `Tera` instance before the render: ordered `add_raw_templates` calls with the
+    /// outcome each must have; empty = a single call with `templates`. `templates` always holds
+    /// what is registered when the render happens (the oracle judges against that).
+    adds: Vec<AddStep>,
+    /// label of the history shape ("" = none)
+    history: String,
+}
+
+#[derive(Clone, Debug)]
+struct AddStep {
+    templates: Vec<(String, String)>,
+    expect_ok: bool,
+}
+
+/// What happens between the first registration and the failing render.
+#[derive(Clone, Debug)]
+struct HistSpec {
+    /// 0 = batch rejected late (reference check), 1 = batch rejected early (syntax error),
+    /// 2 = accepted replacement
+    kind: u8,
+    /// index of the template that is redefined with its content shifted
+    target: usize,
+    prefix: String,
+    broken: (String, String),
+}
+
+fn apply_history(case: &mut Case, h: &HistSpec) {
+    let Some((tname, tsrc)) = case.templates.get(h.target).cloned() else { return };
+    let shifted = format!("{}{}", h.prefix, tsrc);
+    let first = AddStep { templates: case.templates.clone(), expect_ok: true };
+    let rel = if tname == case.host {
+        "host"
+    } else if case.chain.iter().any(|c| c.0 == tname) {
+        "caller"
+    } else if tname == case.entry {
+        "entry"
+    } else {
+        "other"
+    };
+    match h.kind {
+        0 | 1 => {
+            case.adds = vec![first, AddStep { templates: vec![(tname.clone(), shifted), h.broken.clone()], expect_ok: false }];
+            case.history = format!("{}.{rel}", if h.kind == 0 { "rejected-late" } else { "rejected-early" });
+        }
+        _ => {
+            case.adds = vec![first, AddStep { templates: vec![(tname.clone(), shifted.clone())], expect_ok: true }];
+            case.history = format!("replaced.{rel}");
+            case.templates[h.target].1 = shifted;
+            let d = h.prefix.len();
+            if tname == case.host {
+                case.planted = case.planted.start + d..case.planted.end + d;
+                case.tok = case.tok.start + d..case.tok.end + d;
+            }
+            for c in case.chain.iter_mut() {
+                if c.0 == tname {
+                    c.1 += d;
+                }
+            }
+        }
+    }
+}
+
+fn finish_case(set: &TSet, slot: usize, fault: &Fault, hist: &Option<HistSpec>) -> Case {
+    let mut c = build_case(set, slot, fault);
+    if let Some(h) = hist {
+        apply_history(&mut c, h);
+    }
+    c
 }
 
 fn cover_name(c: Cover) -> &'static str {
@@ -1001,7 +1208,8 @@ impl Case {
         let sites: Vec<J> = self
             .chain
             .iter()
-            .map(|(t, off)| json!({"template": t, "offset": off, "line": self.src_of(t).map(|s| linecol(s, *off).0)}))
+            .enumerate()
+            .map(|(i, (t, off))| json!({"template": t, "offset": off, "line": self.src_of(t).map(|s| linecol(s, *off).0), "capture": self.chain_caps.get(i)}))
             .collect();
         json!({
             "templates": self.templates.iter().map(|(n, s)| json!([n, s])).collect::<Vec<_>>(),
@@ -1013,6 +1221,8 @@ impl Case {
             "expected": {"filename": self.host, "call_sites_innermost_first": sites},
             "role": self.role,
             "render_component": self.direct_component,
+            "history_shape": self.history,
+            "history": self.adds.iter().map(|a| json!({"add_raw_templates": a.templates.iter().map(|(n, s)| json!([n, s])).collect::<Vec<_>>(), "expect": if a.expect_ok { "ok" } else { "err" }})).collect::<Vec<_>>(),
             "rerun": "harness/target/release/c12 --replay <this file>",
         })
     }
@@ -1044,8 +1254,21 @@ impl Case {
             planted: r(&f["range"])?,
             tok: r(&f["token"])?,
             chain,
+            chain_caps: j["expected"]["call_sites_innermost_first"].as_array()?.iter().map(|s| s["capture"].as_str().unwrap_or("").to_string()).collect(),
             role: j["role"].as_str().unwrap_or("").to_string(),
             direct_component: j["render_component"].as_str().map(|s| s.to_string()),
+            adds: j["history"]
+                .as_array()
+                .map(|a| {
+                    a.iter()
+                        .filter_map(|st| {
+                            let t = st["add_raw_templates"].as_array()?.iter().map(|p| Some((p[0].as_str()?.to_string(), p[1].as_str()?.to_string()))).collect::<Option<Vec<_>>>()?;
+                            Some(AddStep { templates: t, expect_ok: st["expect"].as_str() == Some("ok") })
+                        })
+                        .collect()
+                })
+                .unwrap_or_default(),
+            history: j["history_shape"].as_str().unwrap_or("").to_string(),
         })
     }
 }
@@ -1063,14 +1286,16 @@ fn build_case(set: &TSet, slot: usize, fault: &Fault) -> Case {
     let (ti, off) = s.slot_offset(slot);
     let info = &s.slots[slot];
     let mut chain = Vec::new();
+    let mut chain_caps: Vec<String> = Vec::new();
     let mut u = info.unit;
     let mut via_inc = false;
     while s.units[u].caller.is_some() {
         if s.units[u].kind == UnitKind::Include {
             via_inc = true;
         }
-        if let Some((cti, coff)) = s.call_site(u) {
+        if let Some((cti, coff, cap)) = s.call_site(u) {
             chain.push((s.tpls[cti].name.clone(), coff));
+            chain_caps.push(cap.to_string());
         }
         u = s.units[u].caller.unwrap();
     }
@@ -1090,12 +1315,15 @@ fn build_case(set: &TSet, slot: usize, fault: &Fault) -> Case {
         planted: off..off + fault.text.len(),
         tok: off + fault.tok.start..off + fault.tok.end,
         chain,
+        chain_caps,
         role,
         direct_component: if info.in_comp_def && info.base_role != "component-call-body" && fault.expect == Expect::Render {
             s.units[info.unit].comp.map(|c| c.to_string())
         } else {
             None
         },
+        adds: vec![],
+        history: String::new(),
     }
 }
 
@@ -1153,6 +1381,33 @@ fn observe(templates: &[(String, String)], entry: &str, context: &J) -> Obs {
     }
     let ctx = context_of(context);
     match catch(std::panic::AssertUnwindSafe(|| tera.render(entry, &ctx))) {
+        Err(p) => Obs { stage: "render", outcome: "panic", panic_msg: p, ..Default::default() },
+        Ok(Err(e)) => observe_err("render", &e),
+        Ok(Ok(_)) => Obs { stage: "none", outcome: "ok", ..Default::default() },
+    }
+}
+
+/// Run the case: its history of `add_raw_templates` calls on one instance, then the render.
+fn observe_case(case: &Case) -> Obs {
+    if case.adds.is_empty() {
+        return observe(&case.templates, &case.entry, &case.context);
+    }
+    let mut tera = Tera::default();
+    for (i, st) in case.adds.iter().enumerate() {
+        let tpls = st.templates.clone();
+        match catch(std::panic::AssertUnwindSafe(|| tera.add_raw_templates(tpls))) {
+            Err(p) => return Obs { stage: "add", outcome: "panic", panic_msg: format!("add #{i}: {p}"), ..Default::default() },
+            Ok(r) => {
+                if r.is_ok() != st.expect_ok {
+                    // the history did not unfold as built (e.g. a batch meant to be rejected was
+                    // accepted): the expectation about what is registered no longer holds
+                    return Obs { stage: "add", outcome: "diverged", panic_msg: format!("add #{i}: expected {}, got {}", if st.expect_ok { "Ok" } else { "Err" }, if r.is_ok() { "Ok".to_string() } else { r.unwrap_err().to_string() }), ..Default::default() };
+                }
+            }
+        }
+    }
+    let ctx = context_of(&case.context);
+    match catch(std::panic::AssertUnwindSafe(|| tera.render(&case.entry, &ctx))) {
         Err(p) => Obs { stage: "render", outcome: "panic", panic_msg: p, ..Default::default() },
         Ok(Err(e)) => observe_err("render", &e),
         Ok(Ok(_)) => Obs { stage: "none", outcome: "ok", ..Default::default() },
@@ -1287,8 +1542,9 @@ fn oracle(case: &Case, obs: &Obs, perturb: bool) -> Verdict {
             fail(&mut v, "a:panic", format!("{} panicked: {}", obs.stage, obs.panic_msg));
             return v;
         }
-        "ok" => {
-            // nothing failed, so the property (which speaks about errors) says nothing: counted
+        "ok" | "diverged" => {
+            // nothing failed (or the history did not unfold as built), so the property (which
+            // speaks about errors) says nothing: counted
             return v;
         }
         _ => {}
@@ -1497,6 +1753,7 @@ struct Done {
     set: TSet,
     slot: usize,
     fault: Fault,
+    hist: Option<HistSpec>,
     /// sources of the valid (pre-plant) set
     valid_sources: Vec<(String, String)>,
 }
@@ -1536,11 +1793,47 @@ fn run_seed(seed: u64, forced: Option<&str>, perturb: bool) -> Outcome {
             break (slot, f);
         }
     };
-    let case = build_case(&set, slot, &fault);
-    let obs = observe(&case.templates, &case.entry, &case.context);
+    // a quarter of the rendering faults get a history on the same instance first
+    let hist = if fault.expect == Expect::Render && rng.chance(1, 4) {
+        let plain = build_case(&set, slot, &fault);
+        let mut cands: Vec<usize> = Vec::new();
+        let idx_of = |n: &str| plain.templates.iter().position(|t| t.0 == n);
+        // the host (component provider / include target / parent when the fault sits there), every
+        // calling template, the root and the entry
+        cands.extend(idx_of(&plain.host));
+        cands.extend(idx_of(&plain.host));
+        for c in &plain.chain {
+            cands.extend(idx_of(&c.0));
+        }
+        cands.push(0);
+        cands.extend(idx_of(&plain.entry));
+        let target = *rng.pick(&cands);
+        let kind = rng.below(3) as u8;
+        let mut prefix = String::from("{# shifted ünï😀 #}");
+        for _ in 0..1 + rng.below(4) {
+            prefix.push_str(*rng.pick(&["\n", "\r\n", "  \n", "\t\n", "{# é #}\n"]));
+        }
+        let broken = if kind == 1 {
+            ("zz_broken.html".to_string(), (*rng.pick(&["{{ a ^ }}", "{% if n %}", "é {{ `x }}"])).to_string())
+        } else {
+            ("zz_broken.html".to_string(), (*rng.pick(&["{{ 1 | no_such_filter }}", "{% if n is no_such_test %}{% endif %}", "{{ no_such_fn() }}", "{% include \"no/such\" %}", "{{ <no.such /> }}"])).to_string())
+        };
+        Some(HistSpec { kind, target, prefix, broken })
+    } else {
+        None
+    };
+    let mut hist = hist;
+    let mut case = finish_case(&set, slot, &fault, &hist);
+    let mut obs = observe_case(&case);
+    if obs.outcome == "diverged" && obs.panic_msg.starts_with("add #0") {
+        // the "rendering" fault is refused at registration already: no history to build on
+        hist = None;
+        case = finish_case(&set, slot, &fault, &hist);
+        obs = observe_case(&case);
+    }
     let mut verdict = oracle(&case, &obs, perturb);
     merge_direct_component(&case, &mut verdict, perturb);
-    Outcome::Done(Box::new(Done { case, obs, verdict, set, slot, fault, valid_sources: sources }))
+    Outcome::Done(Box::new(Done { case, obs, verdict, set, slot, fault, hist, valid_sources: sources }))
 }
 
 /// The same fault reached through `Tera::render_component`: same oracle, no enclosing call site.
@@ -1564,8 +1857,8 @@ fn shrink(d: &Done, perturb: bool) -> Case {
         None => return d.case.clone(),
     };
     let still = |set: &TSet| -> Option<Case> {
-        let c = build_case(set, d.slot, &d.fault);
-        let o = observe(&c.templates, &c.entry, &c.context);
+        let c = finish_case(set, d.slot, &d.fault, &d.hist);
+        let o = observe_case(&c);
         let mut v = oracle(&c, &o, perturb);
         merge_direct_component(&c, &mut v, perturb);
         (v.fails.first().map(|f| f.0.as_str()) == Some(sig.as_str())).then_some(c)
@@ -1640,6 +1933,9 @@ fn shrink(d: &Done, perturb: bool) -> Case {
     }
     // templates emptied by the shrinker and never referenced are left out of the replay
     best.templates.retain(|(n, _)| !n.starts_with("__dropped_"));
+    for a in best.adds.iter_mut() {
+        a.templates.retain(|(n, _)| !n.starts_with("__dropped_"));
+    }
     best
 }
 
@@ -1749,13 +2045,148 @@ fn eof_adversarial() -> Vec<String> {
     v
 }
 
+// ------------------------------------------------------------------ which syntax-error sites were reached
+
+/// Read a Rust string literal starting at the opening quote; returns (content, index after it).
+fn rust_str_lit(b: &[u8], mut i: usize) -> Option<(String, usize)> {
+    if b.get(i) != Some(&b'"') {
+        return None;
+    }
+    i += 1;
+    let mut out: Vec<u8> = Vec::new();
+    while i < b.len() {
+        match b[i] {
+            b'\\' => {
+                match b.get(i + 1)? {
+                    b'n' => out.push(b'\n'),
+                    b'\n' => {
+                        // line continuation: skip the newline and leading whitespace
+                        i += 2;
+                        while i < b.len() && (b[i] == b' ' || b[i] == b'\t') {
+                            i += 1;
+                        }
+                        continue;
+                    }
+                    c => out.push(*c),
+                }
+                i += 2;
+            }
+            b'"' => return Some((String::from_utf8_lossy(&out).into_owned(), i + 1)),
+            c => {
+                out.push(c);
+                i += 1;
+            }
+        }
+    }
+    None
+}
+
+/// Literal parts of a `format!` template (`{{` / `}}` unescaped, `{…}` placeholders split).
+fn template_parts(t: &str) -> Vec<String> {
+    let mut parts = vec![String::new()];
+    let cs: Vec<char> = t.chars().collect();
+    let mut i = 0;
+    while i < cs.len() {
+        match cs[i] {
+            '{' if cs.get(i + 1) == Some(&'{') => {
+                parts.last_mut().unwrap().push('{');
+                i += 2;
+            }
+            '}' if cs.get(i + 1) == Some(&'}') => {
+                parts.last_mut().unwrap().push('}');
+                i += 2;
+            }
+            '{' => {
+                while i < cs.len() && cs[i] != '}' {
+                    i += 1;
+                }
+                i += 1;
+                parts.push(String::new());
+            }
+            c => {
+                parts.last_mut().unwrap().push(c);
+                i += 1;
+            }
+        }
+    }
+    parts.into_iter().filter(|p| !p.is_empty()).collect()
+}
+
+/// Message templates of the syntax-error sites of the lexer and the parser, read from the source
+/// tree under study (regenerated on every run, nothing is hard-wired here).
+fn syntax_sites() -> Result<Vec<String>, String> {
+    let repo = std::env::var("VERIF_REPO").unwrap_or_else(|_| "/repo".into());
+    let mut out: Vec<String> = Vec::new();
+    for f in ["tera/src/parsing/parser.rs", "tera/src/parsing/lexer.rs"] {
+        let path = format!("{repo}/{f}");
+        let src = std::fs::read_to_string(&path).map_err(|e| format!("{path}: {e}"))?;
+        let b = src.as_bytes();
+        let skip_ws = |mut i: usize| {
+            while i < b.len() && b[i].is_ascii_whitespace() {
+                i += 1;
+            }
+            i
+        };
+        for needle in ["syntax_error(", "syntax_error_with_note(", "syntax_error!(", "expect_token!("] {
+            let mut from = 0;
+            while let Some(k) = src[from..].find(needle) {
+                let at = from + k;
+                from = at + needle.len();
+                if needle == "expect_token!(" {
+                    // third macro argument = what was expected
+                    let end = src[from..].find(")?").map(|e| from + e).unwrap_or(from);
+                    let call = &src[from..end];
+                    if let Some(q) = call.rfind(", \"") {
+                        if let Some((exp, _)) = rust_str_lit(b, from + q + 2) {
+                            out.push(format!("Found {{}} but expected {}.", exp.replace('{', "{{").replace('}', "}}")));
+                        }
+                    }
+                    continue;
+                }
+                let mut i = skip_ws(from);
+                if b.get(i) == Some(&b'&') {
+                    i = skip_ws(i + 1);
+                }
+                let is_format = src[i..].starts_with("format!(");
+                if is_format {
+                    i = skip_ws(i + "format!(".len());
+                }
+                if let Some((lit, _)) = rust_str_lit(b, i) {
+                    if !lit.contains("$expectation") && !lit.is_empty() {
+                        // a plain literal is not a format template: keep its braces literal
+                        out.push(if is_format { lit } else { lit.replace('{', "{{").replace('}', "}}") });
+                    }
+                }
+            }
+        }
+    }
+    out.sort();
+    out.dedup();
+    out.retain(|t| t != "Found {} but expected {}.");
+    Ok(out)
+}
+
+fn message_hits(template: &str, msg: &str) -> bool {
+    let mut pos = 0;
+    for p in template_parts(template) {
+        match msg[pos..].find(&p) {
+            Some(i) => pos += i + p.len(),
+            None => return false,
+        }
+    }
+    true
+}
+
 // ------------------------------------------------------------------ main
 
 fn replay(path: &str) {
     let text = std::fs::read_to_string(path).expect("replay file");
     let j: J = serde_json::from_str(&text).expect("replay json");
     let case = Case::from_json(&j).expect("replay case");
-    let obs = observe(&case.templates, &case.entry, &case.context);
+    let obs = observe_case(&case);
+    for (i, a) in case.adds.iter().enumerate() {
+        println!("history: add #{i} of {:?}, must be {}", a.templates.iter().map(|t| t.0.as_str()).collect::<Vec<_>>(), if a.expect_ok { "Ok" } else { "Err" });
+    }
     println!("planted: class={} template={} range={:?} token={:?} ({:?}) cover={} expect={}", case.class, case.host, case.planted, case.tok, case.src_of(&case.host).and_then(|s| s.get(case.tok.clone())), cover_name(case.cover), expect_name(case.expect));
     println!("stage={} outcome={} kind={} filename={:?} span={:?}", obs.stage, obs.outcome, obs.kind, obs.filename, obs.span);
     if !obs.panic_msg.is_empty() {
@@ -1835,6 +2266,7 @@ fn main() {
     let mut prop_sigs: HashSet<String> = HashSet::new();
     let mut mismatch_reported = 0usize;
     let mut sample_roles: HashSet<String> = HashSet::new();
+    let mut syntax_messages: HashSet<String> = HashSet::new();
     let mut invalid_examples: Vec<String> = Vec::new();
     let classes = all_classes();
 
@@ -1869,7 +2301,16 @@ fn main() {
             report.count(&format!("class.{}", c.class));
             report.count(&format!("role.{}", c.role));
             report.count(&format!("templates.{}", c.templates.len()));
+            if !c.history.is_empty() {
+                report.count(&format!("history.{}", c.history));
+                if d.obs.outcome == "diverged" {
+                    report.count("history.diverged-not-judged");
+                }
+            }
             let kind = if d.obs.outcome == "err" { d.obs.kind.clone() } else { d.obs.outcome.to_string() };
+            if kind == "Syntax" {
+                syntax_messages.insert(d.obs.message.clone());
+            }
             report.count(&format!("kind.{kind}"));
             report.count(&format!("outcome.{}.{}", expect_name(c.expect), kind));
             if let Some(k) = &v.direct_component {
@@ -1879,6 +2320,11 @@ fn main() {
                 report_errors += 1;
                 report.count(&format!("notes.{}", v.notes));
                 report.count(&format!("chain-depth.{}", c.chain.len()));
+                if d.obs.kind == "Rendering" {
+                    for cap in &c.chain_caps {
+                        report.count(&format!("callsite.{}", if cap.is_empty() { "plain".to_string() } else { format!("in-capture.{cap}") }));
+                    }
+                }
                 if v.collapsed {
                     report.count("span.collapsed-start-at-range-end(eoi)");
                 }
@@ -1918,7 +2364,7 @@ fn main() {
                 report.count(&format!("oracle-fail.{}", v.fails[0].0));
                 if prop_sigs.len() < 8 && prop_sigs.insert(sig) {
                     let small = shrink(d, perturb);
-                    let o = observe(&small.templates, &small.entry, &small.context);
+                    let o = observe_case(&small);
                     let mut sv = oracle(&small, &o, perturb);
                     merge_direct_component(&small, &mut sv, perturb);
                     let mut rj = small.to_json();
@@ -2046,12 +2492,18 @@ fn main() {
                 planted: 0..src.len(),
                 tok: 0..src.len(),
                 chain: vec![],
+                chain_caps: vec![],
                 role: "entry".into(),
                 direct_component: None,
+                adds: vec![],
+                history: String::new(),
             };
             if obs.outcome == "ok" || (obs.outcome == "err" && obs.kind != "Syntax" && obs.kind != "Rendering") {
                 report.count(&format!("eof.not-a-report-error.{}", if obs.outcome == "ok" { "accepted" } else { obs.kind.as_str() }));
                 continue;
+            }
+            if obs.kind == "Syntax" {
+                syntax_messages.insert(obs.message.clone());
             }
             let v = oracle(&case, &obs, perturb);
             report.oracle_checks += v.checks;
@@ -2109,6 +2561,22 @@ fn main() {
                     }
                 }
             }
+        }
+    }
+
+    // ---- which syntax-error sites of the lexer / parser did the planted faults reach
+    match syntax_sites() {
+        Err(e) => report.notes.push(format!("syntax-site coverage not measured: {e}")),
+        Ok(sites) => {
+            let missed: Vec<&String> = sites.iter().filter(|t| !syntax_messages.iter().any(|m| message_hits(t, m))).collect();
+            report.count_n("syntax-site.total", sites.len() as u64);
+            report.count_n("syntax-site.hit", (sites.len() - missed.len()) as u64);
+            report.notes.push(format!(
+                "syntax-error sites (distinct message templates of lexer.rs / parser.rs) reached by planted faults: {} of {}; not reached: {}",
+                sites.len() - missed.len(),
+                sites.len(),
+                if missed.is_empty() { "none".to_string() } else { missed.iter().map(|m| format!("`{}`", template_parts(m).join("…"))).collect::<Vec<_>>().join("; ") }
+            ));
         }
     }
 
